@@ -55,12 +55,12 @@ CHECKS = {
             "DESIGN.md §5 C10"),
     "C06": ("taskmc", "exploration",
             "stateless deviation-bounded exploration of task schedules (prefix-replay DFS under a deterministic executor) on real Client, Connection and Broker tasks",
-            "A catalogue of program templates written against the public client API (registry and proxies; 1-2 callers x 1-2 overlapping calls with abort by drop and service destruction mid-call; events with two proxies on one client plus one on another, subscribe / subscribe-all / unsubscribe / drop; channels with capacity in {1,4,5,...}, n items, consumer reads m then closes or drops, both ends on one or two clients, close-before-claim, double claim, cancelled claim, cancelled-and-rejected claim, producer polling receiver_closed in stream and ping-pong style; bus listeners; explicit shutdowns in every order), instantiated over unbounded / bounded(1) (thorough also bounded(2), bounded(16)) transports and client versions 1.14 (connect1), 1.16..1.20 (version-rewriting shim): about 260 instances (quick). For each instance all schedules - which ready task of broker, connections, clients and application tasks is polled next - with at most 2 (thorough 3-4) deviations from the canonical schedule. Oracles: no task panics; every Client::run and Connection::run returns Ok (never UnexpectedMessageReceived); every application task finishes (else lost wake-up / deadlock); program assertions (a call returns the value computed from its own arguments, items arrive exactly once in order, events arrive at the proxies subscribed at emit time); after all clients are gone shutdown_idle stops the broker.",
+            "A catalogue of program templates written against the public client API (registry and proxies; 1-2 callers x 1-2 overlapping calls with abort by drop and service destruction mid-call; events with two proxies on one client plus one on another, subscribe / subscribe-all / unsubscribe / drop; channels with capacity in {1,4,5,...}, n items, consumer reads m then closes or drops, both ends on one or two clients, close-before-claim, double claim, cancelled claim, cancelled-and-rejected claim, producer polling receiver_closed in stream and ping-pong style; event bursts against a slow subscriber that drops / unsubscribes a proxy with several subscriptions (back-pressure on small bounded transports); bus listeners; explicit shutdowns in every order), instantiated over unbounded / bounded(1) (thorough also bounded(2), bounded(16)) transports and client versions 1.14 (connect1), 1.16..1.20 (version-rewriting shim): about 260 instances (quick). For each instance all schedules - which ready task of broker, connections, clients and application tasks is polled next - with at most 2 (thorough 3-4) deviations from the canonical schedule. Oracles: no task panics; every Client::run and Connection::run returns Ok (never UnexpectedMessageReceived); every application task finishes (else lost wake-up / deadlock); program assertions (a call returns the value computed from its own arguments, items arrive exactly once in order, events arrive at the proxies subscribed at emit time); after all clients are gone shutdown_idle stops the broker.",
             "programs outside the catalogue and schedules needing more deviations are not covered; parallelism is covered through the interleaving argument (tasks share no memory)",
             "DESIGN.md §5 C06"),
     "C15": ("taskmc", "fault_enumeration",
             "enumeration of every transport-operation index as fault point (error / end-of-stream) and of the clean causes at every application stage, each with deviation-bounded schedule exploration, on real clients",
-            "A victim client holds pending work of every kind at once (call awaiting its reply, own service awaiting calls, subscribed proxy, sender blocked on credit, receiver awaiting items, started bus listener, lifetime, sync_broker in flight) or subsets; a healthy peer is its counterpart. For every index k of the victim's transport operations (receive, send, flush; counted on the canonical run, incl. the handshake) an error and an end-of-stream are injected at k; Handle::shutdown, BrokerHandle::shutdown and shutdown_connection strike at every stage of setting up the pending work; x unbounded / bounded transports and versions; x all schedules with <= 1 (thorough 2) deviations. Oracles: Client::run returns (Ok for clean causes, the transport error for a delivered fault, never a panic or UnexpectedMessageReceived); every pending and every later operation completes; the peer is unaffected; the broker side sees the connection closed and its snapshot is empty after both clients ended.",
+            "A victim client holds pending work of every kind at once (call awaiting its reply, own service awaiting calls, subscribed proxy, sender blocked on credit, receiver awaiting items, started bus listener, lifetime, sync_broker in flight) or subsets; a healthy peer is its counterpart. For every index k of the victim's transport operations (receive, send, flush; counted on the canonical run, incl. the handshake) an error, an end-of-stream and a write-half failure (sends and flushes fail, the read half stays silent) are injected at k, and likewise at every operation index of the broker side of the victim's transport; Handle::shutdown, BrokerHandle::shutdown and shutdown_connection strike at every stage of setting up the pending work, alone and combined with a transport fault at every operation of the shutdown sequence itself; x unbounded / bounded transports and versions; x all schedules with <= 1 (thorough 2) deviations. Oracles: Client::run returns (Ok for clean causes, the transport error for a delivered fault, never a panic or UnexpectedMessageReceived); every pending and every later operation completes; the peer is unaffected; the broker side sees the connection closed and its snapshot is empty after both clients ended.",
             "fault index taken from the canonical run; broker shutdown tears connections down in hash order, which is tolerated as divergence and counted",
             "DESIGN.md §5 C15"),
     "C19": ("taskmc", "exploration",
